@@ -1,0 +1,29 @@
+// Verification hooks. This module only exists when the crate is compiled with
+// `--cfg akd_verif`; nothing in a normal build refers to it.
+
+//! Scheduling points for deterministic simulation (compiled only with `--cfg akd_verif`)
+
+use std::cell::Cell;
+use std::future::Future;
+use std::pin::Pin;
+
+/// Callback type: given the name of the site, returns a future which resolves when the
+/// simulator lets the calling task proceed.
+pub type SimPointFn = fn(&'static str) -> Pin<Box<dyn Future<Output = ()> + Send>>;
+
+thread_local! {
+    static SIM_POINT: Cell<Option<SimPointFn>> = const { Cell::new(None) };
+}
+
+/// Install (or remove) the scheduling-point callback for the current thread.
+pub fn install_sim_point(f: Option<SimPointFn>) {
+    SIM_POINT.with(|s| s.set(f));
+}
+
+/// A cooperative scheduling point. Returns immediately when no callback is installed.
+pub async fn sim_point(site: &'static str) {
+    let f = SIM_POINT.with(|s| s.get());
+    if let Some(f) = f {
+        f(site).await
+    }
+}
